@@ -1,5 +1,6 @@
 import HdVerif.Proofs.Coding
 import HdVerif.Proofs.CodingTie
+import HdVerif.Proofs.CodingStore
 /-! # C17  Coded concepts behave as values under equality, hashing and I/O
 
 Objects are pydicom `Code`s and highdicom `CodedConcept`s (`Obj.code` / `Obj.concept`), in any mix.
@@ -408,10 +409,330 @@ theorem tie_from_code (d : DS) :
 example : conceptEqPlan true false = .ok 0 ∧ conceptEqPlan false true = .ok 0 ∧ conceptEqPlan false false = .ok 1 ∧
     conceptNeOf true = .ok false := by decide
 
-/-! ## non-vacuity: the hypotheses are satisfiable by concrete, non-trivial inputs -/
-
 /-- the SNOMED example used throughout: retired SRT `T-A0100` is SCT `12738006` -/
 def exRetired : String → String → Option String := fun s v => if s = "SRT" ∧ v = "T-A0100" then some "12738006" else none
+
+/-! ## dictionaries and sets keyed by codes (histories of insertions, look-ups, deletions)
+
+`PyDict β` is Python's `dict` (`β = Unit`: `set`) as the list of its entries in insertion order; a look-up takes the
+first entry whose stored hash equals the hash of the key and whose stored key `==` the key (`Model/CodingStore.lean`,
+tied to the real `dict` / `set` by the stream `dict-history`).  `sig h retired k` = (hash, normalised key) is all a
+dict can see of a key; `d.WF h`: every stored key is well-formed and stored under its own hash; `d.distinct retired`:
+no two entries answer the same query (then the probe order of the real hash table cannot be observed). -/
+
+/-- **insert, then look up**: `d[k] = v` never raises on well-formed keys, and afterwards `d[k']` is `v` for every
+key of either class that hashes like `k` and compares equal to it, and what it was before for every other key. -/
+theorem dict_set_then_get {β : Type} (h : String → Int) (retired : String → String → Option String) (d : PyDict β)
+    (hd : d.WF h) (k k' : Obj) (hk : k.wf) (hk' : k'.wf) (v : β) :
+    ∃ d' r, pySet h retired d k v = .ok d' ∧ d'.WF h ∧ pyGet h retired d k' = .ok r ∧
+      pyGet h retired d' k' = .ok (if sig h retired k' = sig h retired k then some v else r) := by
+  have hw : (pSet retired (sig h retired k) k v d).WF h := pSet_WF h retired _ k v hk rfl d hd
+  refine ⟨_, _, pySet_pure h retired d hd k hk v, hw, pyGet_pure h retired d hd k' hk', ?_⟩
+  rw [pyGet_pure h retired _ hw k' hk', pFind_pSet retired _ _ k v rfl d]
+
+/-- insertion keeps the dict well-formed and free of double entries; it grows by one exactly when the key was not found -/
+theorem dict_set_invariants {β : Type} (h : String → Int) (retired : String → String → Option String) (d : PyDict β)
+    (hd : d.WF h) (hdist : d.distinct retired) (k : Obj) (hk : k.wf) (v : β) :
+    ∃ d' r, pySet h retired d k v = .ok d' ∧ d'.WF h ∧ d'.distinct retired ∧ pyGet h retired d k = .ok r ∧
+      d'.length = d.length + (if r.isNone then 1 else 0) := by
+  refine ⟨_, _, pySet_pure h retired d hd k hk v, pSet_WF h retired _ k v hk rfl d hd,
+    pSet_distinct retired _ k v rfl d hdist, pyGet_pure h retired d hd k hk, ?_⟩
+  rw [length_pSet]
+  have := pFind_none_iff retired (sig h retired k) d
+  by_cases h0 : hits retired (sig h retired k) d = 0
+  · simp [h0, this.mpr h0]
+  · have : pFind retired (sig h retired k) d ≠ none := fun hh => h0 (this.mp hh)
+    cases hp : pFind retired (sig h retired k) d with
+    | none => exact absurd hp this
+    | some x => simp [h0]
+
+/-- **delete**: `del d[k]` is a KeyError exactly when `k` is not found; otherwise one entry goes, every key that lands in
+the slot of `k` is absent afterwards and every other key finds what it found before -/
+theorem dict_del_then_get {β : Type} (h : String → Int) (retired : String → String → Option String) (d : PyDict β)
+    (hd : d.WF h) (hdist : d.distinct retired) (k : Obj) (hk : k.wf) :
+    ∃ r, pyGet h retired d k = .ok r ∧
+      match r with
+      | none => pyDel h retired d k = .ok none
+      | some _ => ∃ d', pyDel h retired d k = .ok (some d') ∧ d'.WF h ∧ d'.distinct retired ∧ d'.length + 1 = d.length ∧
+          ∀ k' : Obj, k'.wf → ∃ r', pyGet h retired d k' = .ok r' ∧
+            pyGet h retired d' k' = .ok (if sig h retired k' = sig h retired k then none else r') := by
+  refine ⟨_, pyGet_pure h retired d hd k hk, ?_⟩
+  have hs := fun q' => pDel_spec retired (sig h retired k) q' d hdist
+  cases hp : pFind retired (sig h retired k) d with
+  | none =>
+    simp only
+    rw [pyDel_pure h retired d hd k hk]
+    cases hdel : pDel retired (sig h retired k) d with
+    | none => rfl
+    | some d' =>
+      have := hs (sig h retired k)
+      rw [hdel] at this
+      have h0 := (pFind_none_iff retired _ d).mp hp
+      omega
+  | some x =>
+    simp only
+    rw [pyDel_pure h retired d hd k hk]
+    cases hdel : pDel retired (sig h retired k) d with
+    | none =>
+      have := hs (sig h retired k)
+      rw [hdel] at this
+      have := (pFind_none_iff retired _ d).mpr this
+      rw [hp] at this; cases this
+    | some d' =>
+      have hall := hs
+      simp only [hdel] at hall
+      obtain ⟨_, hlen, _, hle, hmem⟩ := hall (sig h retired k)
+      have hw' : d'.WF h := fun e he => hd e (hmem e he)
+      refine ⟨d', rfl, hw', fun q => Nat.le_trans (hle q) (hdist q), hlen, fun k' hk' => ?_⟩
+      refine ⟨_, pyGet_pure h retired d hd k' hk', ?_⟩
+      rw [pyGet_pure h retired d' hw' k' hk', (hall (sig h retired k')).2.2.1]
+
+/-- **a whole history of insertions**: after `d[k1] = v1; …; d[kn] = vn` (keys of both classes in any mix) a look-up by
+`k'` returns the value of the LAST insertion whose key hashes like `k'` and equals it, and what `d` held before when
+there is none — whatever was inserted in between. -/
+theorem dict_history_lookup {β : Type} (h : String → Int) (retired : String → String → Option String) (kvs : List (Obj × β)) :
+    ∀ (d : PyDict β), d.WF h → (∀ p ∈ kvs, p.1.wf) → ∀ k' : Obj, k'.wf →
+    ∃ d' r, insertAll h retired d kvs = .ok d' ∧ d'.WF h ∧ pyGet h retired d k' = .ok r ∧
+      pyGet h retired d' k' = .ok (match lastMatch h retired k' kvs with
+        | some w => some w
+        | none => r) := by
+  induction kvs with
+  | nil =>
+    intro d hd _ k' hk'
+    exact ⟨d, _, rfl, hd, pyGet_pure h retired d hd k' hk', by simp [lastMatch, pyGet_pure h retired d hd k' hk']⟩
+  | cons p rest ih =>
+    intro d hd hall k' hk'
+    obtain ⟨k, v⟩ := p
+    have hk : k.wf := hall (k, v) (by simp)
+    obtain ⟨d1, r, e1, hw1, g0, g1⟩ := dict_set_then_get h retired d hd k k' hk hk' v
+    obtain ⟨d2, r1, e2, hw2, g2, g3⟩ := ih d1 hw1 (fun q hq => hall q (by simp [hq])) k' hk'
+    refine ⟨d2, r, by simp [insertAll, e1, e2], hw2, g0, ?_⟩
+    rw [g3]
+    rw [g1] at g2
+    cases g2
+    simp only [lastMatch]
+    cases lastMatch h retired k' rest <;> simp
+    split <;> rfl
+
+/-- **a concept is found under the equal `Code` and a `Code` under the equal concept** — with or without a scheme
+version, whatever the two meanings: `{CodedConcept(v, s, m, ver): x}[Code(v, s, m', ver)]` is `x`, and the other way
+round (so `hash(concept) == hash(code)` is needed in both directions, versions included). -/
+theorem dict_lookup_across_classes {β : Type} (h : String → Int) (retired : String → String → Option String) (d : PyDict β)
+    (hd : d.WF h) (v s m m' : String) (ver : Option String) (c : DS) (hc : mkConcept v s m ver = .ok c) (x : β) :
+    (∃ d', pySet h retired d (.concept c) x = .ok d' ∧
+      pyGet h retired d' (.code ⟨some v, some s, some m', ver⟩) = .ok (some x)) ∧
+    (∃ d', pySet h retired d (.code ⟨some v, some s, some m', ver⟩) x = .ok d' ∧
+      pyGet h retired d' (.concept c) = .ok (some x)) := by
+  have hw := ctor_wf v s m ver c hc
+  obtain ⟨_, _, rfl⟩ := mkConcept_ok v s m ver c hc
+  have hcw : (Obj.code ⟨some v, some s, some m', ver⟩).wf := by simp [Obj.wf]
+  have hs := sig_built h retired v s m m' ver
+  constructor
+  · obtain ⟨d', r, e, _, _, g⟩ := dict_set_then_get h retired d hd _ _ hw hcw x
+    exact ⟨d', e, by rw [g]; simp [hs]⟩
+  · obtain ⟨d', r, e, _, _, g⟩ := dict_set_then_get h retired d hd _ _ hcw hw x
+    exact ⟨d', e, by rw [g]; simp [hs]⟩
+
+/-- outside the retired-scheme aliases two keys share a dict slot **iff** they agree in value, scheme and version
+(never the meaning, never the class): the dict is keyed by the triple -/
+theorem same_slot_iff_triple (h : String → Int) (retired : String → String → Option String) (a b : Obj) (ha : a.wf) (hb : b.wf)
+    (hna : specScheme a ≠ some "SRT") (hnb : specScheme b ≠ some "SRT") :
+    sig h retired a = sig h retired b ↔
+      (specValue a = specValue b ∧ specScheme a = specScheme b ∧ specVersion a = specVersion b) := by
+  have hk := eq_iff_same_triple retired a b ha hb hna hnb
+  rw [objEq_key retired a b ha hb] at hk
+  simp only [Except.ok.injEq, decide_eq_true_eq] at hk
+  constructor
+  · intro hs
+    exact hk.mp (congrArg Prod.snd hs)
+  · intro ht
+    have := hk.mpr ht
+    simp only [sig, hashVal, ht.1, ht.2.1, this]
+
+/-- **where the value behaviour ends** (pydicom's SRT → SCT identification, cf. the quantifier of the property): a
+retired SRT code and its SCT successor are equal in both directions, but whenever the string hash separates
+`"SRT" ++ old` from `"SCT" ++ new` they hash differently — `a == b` without `hash(a) == hash(b)` — so a set holds
+both and a dictionary filled under one does not find the other.  Holds for either class on either side. -/
+theorem counterexample_alias_hash_and_dict (h : String → Int) (hh : h "SRTT-A0100" ≠ h "SCT12738006") :
+    let a : Obj := .code ⟨some "T-A0100", some "SRT", some "Brain", none⟩
+    let b : Obj := .concept [("CodingSchemeDesignator", "SCT"), ("CodeMeaning", "Entire brain"), ("CodeValue", "12738006")]
+    objEq exRetired a b = .ok true ∧ objEq exRetired b a = .ok true ∧ hashOf h a ≠ hashOf h b ∧
+    setLen2 h exRetired a b = .ok 2 ∧
+    (∃ d : PyDict Nat, pySet h exRetired [] a 1 = .ok d ∧ pyGet h exRetired d b = .ok none ∧
+      pyGet h exRetired d a = .ok (some 1)) := by
+  intro a b
+  have ha : a.wf := by decide
+  have hb : b.wf := by decide
+  have e1 : objEq exRetired a b = .ok true := by rw [objEq_key _ _ _ ha hb]; decide
+  have e2 : objEq exRetired b a = .ok true := by rw [objEq_key _ _ _ hb ha]; decide
+  have h1 : hashOf h a = .ok (h "SRTT-A0100") := by rw [hashOf_wf h a ha]; rfl
+  have h2 : hashOf h b = .ok (h "SCT12738006") := by rw [hashOf_wf h b hb]; rfl
+  refine ⟨e1, e2, ?_, ?_, ?_⟩
+  · rw [h1, h2]; intro hc; exact hh (Except.ok.inj hc)
+  · simp [setLen2, h1, h2, hh]
+  · obtain ⟨d', r, e, _, g0, g⟩ := dict_set_then_get h exRetired ([] : PyDict Nat) (fun _ he => by cases he) a b ha hb 1
+    obtain ⟨d'', r', e', _, g0', g'⟩ := dict_set_then_get h exRetired ([] : PyDict Nat) (fun _ he => by cases he) a a ha ha 1
+    rw [e] at e'; cases e'
+    refine ⟨d', e, ?_, by rw [g']; simp⟩
+    rw [g]
+    have hne : sig h exRetired b ≠ sig h exRetired a := by
+      intro hc
+      have := congrArg Prod.fst hc
+      exact hh this.symm
+    have hr : r = none := by
+      have : pyGet h exRetired ([] : PyDict Nat) b = .ok none := by
+        simp [pyGet, h2, pyGetH]
+      rw [this] at g0; cases g0; rfl
+    simp [hne, hr]
+
+/-! ## histories on the object store: several concepts made one after the other
+
+`runH h ops` runs a history of `HOp`s (constructor, `from_code` of a `Code` or of an existing object, `from_dataset`
+with either `copy`, `deepcopy` / pickle round trip, attribute assignment and deletion through a reference) on the
+object store `h`; a refused step leaves the store as it was.  Hand-written (`Model/CodingStore.lean`) over `mkConcept`,
+`fromCode`, `fromDataset`, whose decision parts are regenerated; tied to the real objects by the stream `store-history`. -/
+
+/-- one step never removes an object, returns a reference into the new store, and leaves every existing object other
+than the one it writes through (assignment, deletion, `from_dataset(copy=False)`) exactly as it was -/
+theorem store_step_frame (h : Heap) (op : HOp) (h' : Heap) (out : Option Nat) (hs : stepH h op = .ok (h', out)) :
+    h.length ≤ h'.length ∧ (∀ j, j < h.length → op.target ≠ some j → h'[j]? = h[j]?) ∧
+    (∀ r, out = some r → r < h'.length) :=
+  stepH_frame h op h' out hs
+
+/-- **object independence over whole histories**: an object that no step of the history writes through is at the end
+what it was at the start (class and content), however many concepts were created, converted, copied or modified
+in between -/
+theorem store_history_frame (ops : List HOp) (h : Heap) (j : Nat) (hj : j < h.length)
+    (hall : ∀ op ∈ ops, op.target ≠ some j) : (runH h ops).1[j]? = h[j]? :=
+  (runH_frame ops h j hj hall).1
+
+/-- `from_code(Code(v, s, m, ver))` in ANY state of the store makes a NEW object (reference = size of the store, so
+different from every existing one) that carries exactly the four fields of THIS code — its own meaning included —
+and touches nothing else -/
+theorem from_code_is_fresh (h : Heap) (v s m : String) (ver : Option String) (hm : m.length ≤ 64)
+    (hb : anyBackslash v s m ver = false) :
+    stepH h (.fromCode v s m ver) =
+      .ok (h ++ [{ cls := .codedConcept, ds := builtDS (stdKeyword v) v s m ver }], some h.length) := by
+  obtain ⟨d, hd⟩ := (ctor_total v s m ver).1.mpr ⟨hb, hm⟩
+  obtain ⟨_, _, rfl⟩ := mkConcept_ok v s m ver d hd
+  have hu : ∀ (c : Code), unpackedArg c "value" = .ok c.value ∧ unpackedArg c "scheme_designator" = .ok c.scheme ∧
+      unpackedArg c "meaning" = .ok c.meaning ∧ unpackedArg c "scheme_version" = .ok c.version := by
+    intro c
+    simp [unpackedArg, ctorParams, pydCodeFields, List.zip, List.lookup, Obj.attr]
+  simp [stepH, fromCode, hu, hd]
+
+/-- **two codes that differ only in their meaning** (equal under `==`, equal hash) converted at any two points of a
+history give two different objects, each with its own meaning, and both keep it to the end as long as nobody writes
+through them — whatever else happens before, between and after -/
+theorem from_code_histories_independent (h0 : Heap) (v s m1 m2 : String) (ver : Option String) (mid post : List HOp)
+    (hm1 : m1.length ≤ 64) (hm2 : m2.length ≤ 64)
+    (hb1 : anyBackslash v s m1 ver = false) (hb2 : anyBackslash v s m2 ver = false) :
+    ∃ h1 h3, stepH h0 (.fromCode v s m1 ver) = .ok (h1, some h0.length) ∧
+      stepH (runH h1 mid).1 (.fromCode v s m2 ver) = .ok (h3, some (runH h1 mid).1.length) ∧
+      h0.length < (runH h1 mid).1.length ∧
+      ((∀ op ∈ mid ++ post, op.target ≠ some h0.length) →
+        (runH h3 post).1[h0.length]? = some ⟨.codedConcept, builtDS (stdKeyword v) v s m1 ver⟩) ∧
+      ((∀ op ∈ post, op.target ≠ some (runH h1 mid).1.length) →
+        (runH h3 post).1[(runH h1 mid).1.length]? = some ⟨.codedConcept, builtDS (stdKeyword v) v s m2 ver⟩) := by
+  refine ⟨_, _, from_code_is_fresh h0 v s m1 ver hm1 hb1, from_code_is_fresh _ v s m2 ver hm2 hb2, ?_, ?_, ?_⟩
+  · have := runH_length mid (h0 ++ [⟨.codedConcept, builtDS (stdKeyword v) v s m1 ver⟩])
+    simp only [List.length_append, List.length_singleton] at this
+    omega
+  · intro hall
+    have hlen := runH_length mid (h0 ++ [⟨.codedConcept, builtDS (stdKeyword v) v s m1 ver⟩])
+    simp only [List.length_append, List.length_singleton] at hlen
+    rw [(runH_frame post _ h0.length (by simp; omega) (fun op ho => hall op (by simp [ho]))).1,
+      List.getElem?_append_left (by omega),
+      (runH_frame mid _ h0.length (by simp) (fun op ho => hall op (by simp [ho]))).1]
+    simp
+  · intro hall
+    rw [(runH_frame post _ _ (by simp) hall).1]
+    simp
+
+/-! ## round trips `parse (build c) = c` -/
+
+/-- **Code → CodedConcept → Code**: the `Code` that `__eq__` rebuilds from the properties of a constructed concept is
+the tuple of the four arguments, and `from_code` of that tuple is the very dataset the constructor builds — the two
+representations convert into each other without loss, for every accepted argument tuple -/
+theorem code_concept_code_roundtrip (v s m : String) (ver : Option String) (d : DS) (hd : mkConcept v s m ver = .ok d) :
+    thisOf d = .ok ⟨some v, some s, some m, ver⟩ ∧
+    fromCode (.code ⟨some v, some s, some m, ver⟩) = .ok (.concept d) := by
+  obtain ⟨_, _, g3, g4, g5, g6⟩ := value_attribute_roundtrip v s m ver d hd
+  have hu : ∀ (c : Code), unpackedArg c "value" = .ok c.value ∧ unpackedArg c "scheme_designator" = .ok c.scheme ∧
+      unpackedArg c "meaning" = .ok c.meaning ∧ unpackedArg c "scheme_version" = .ok c.version := by
+    intro c
+    simp [unpackedArg, ctorParams, pydCodeFields, List.zip, List.lookup, Obj.attr]
+  exact ⟨by simp [thisOf, eqThisArgs, mapE, g3, g4, g5, g6, codeOfArgs], by simp [fromCode, hu, hd]⟩
+
+/-- **constructor → `from_dataset` (copy or alias) / `deepcopy` / pickle**: in any state of the store the object that
+comes back is a CodedConcept whose four properties are the four arguments; with `copy=True` (and for `deepcopy`) it is
+a different object and the constructed one is left as it was -/
+theorem build_parse_roundtrip (h : Heap) (v s m : String) (ver : Option String) (copy : Bool) (hm : m.length ≤ 64)
+    (hb : anyBackslash v s m ver = false) :
+    ∃ h1 h2 r', stepH h (.new v s m ver) = .ok (h1, some h.length) ∧
+      stepH h1 (.fromDataset h.length copy) = .ok (h2, some r') ∧
+      (∃ c, h2[r']? = some c ∧ c.cls = .codedConcept ∧ prop c.ds "value" = .ok (some v) ∧
+        prop c.ds "meaning" = .ok (some m) ∧ prop c.ds "scheme_designator" = .ok (some s) ∧
+        prop c.ds "scheme_version" = .ok ver) ∧
+      (copy = true → r' ≠ h.length ∧ h2[h.length]? = h1[h.length]?) ∧ (copy = false → r' = h.length) ∧
+      stepH h1 (.deepcopy h.length) = .ok (h1 ++ [⟨.codedConcept, builtDS (stdKeyword v) v s m ver⟩], some h1.length) := by
+  obtain ⟨d, hd⟩ := (ctor_total v s m ver).1.mpr ⟨hb, hm⟩
+  obtain ⟨_, _, g3, g4, g5, g6⟩ := value_attribute_roundtrip v s m ver d hd
+  have hw := ctor_wf v s m ver d hd
+  obtain ⟨_, _, hdd⟩ := mkConcept_ok v s m ver d hd
+  have hget : (h ++ [(⟨.codedConcept, d⟩ : Cell)])[h.length]? = some ⟨.codedConcept, d⟩ := by simp
+  have hacc : acceptable (⟨.codedConcept, d⟩ : Cell) := ⟨by simp, hw.1, hw.2.1, hw.2.2⟩
+  have hfd := fromDataset_ok (h ++ [(⟨.codedConcept, d⟩ : Cell)]) h.length copy ⟨.codedConcept, d⟩ hget hacc
+  have hnew : stepH h (.new v s m ver) = .ok (h ++ [(⟨.codedConcept, d⟩ : Cell)], some h.length) := by simp [stepH, hd]
+  have hdc : stepH (h ++ [(⟨.codedConcept, d⟩ : Cell)]) (.deepcopy h.length) =
+      .ok (h ++ [(⟨.codedConcept, d⟩ : Cell)] ++ [⟨.codedConcept, builtDS (stdKeyword v) v s m ver⟩],
+        some (h ++ [(⟨.codedConcept, d⟩ : Cell)]).length) := by
+    simp [stepH, hdd]
+  cases copy
+  · refine ⟨_, (h ++ [(⟨.codedConcept, d⟩ : Cell)]).set h.length ⟨.codedConcept, d⟩, h.length, hnew, ?_,
+      ⟨⟨.codedConcept, d⟩, by simp, rfl, g3, g4, g5, g6⟩, (by intro hc; cases hc), fun _ => rfl, hdc⟩
+    simp only [stepH, hfd]; rfl
+  · refine ⟨_, h ++ [(⟨.codedConcept, d⟩ : Cell)] ++ [⟨.codedConcept, d⟩], h.length + 1, hnew, ?_,
+      ⟨⟨.codedConcept, d⟩, by simp, rfl, g3, g4, g5, g6⟩, fun _ => ⟨by omega, by simp⟩, (by intro hc; cases hc), hdc⟩
+    simp only [stepH, hfd]; simp
+
+/-- **through a written file** (`dcmwrite` → `dcmread` → `from_dataset`): pydicom's reader drops the padding characters
+(trailing blanks and NULs), nothing else.  The concept read back is well-formed, holds the value in the same attribute,
+and its four properties are the four arguments without trailing padding; a string survives unchanged **iff** it does
+not end in a padding character, and then the dataset read back is the dataset written.  (Hand model `fileRoundTrip`,
+tied by the stream `file-strings`.) -/
+theorem file_roundtrip (v s m : String) (ver : Option String) (d : DS) (hd : mkConcept v s m ver = .ok d) :
+    (Obj.concept (fileRoundTrip d)).wf ∧
+    DS.get (fileRoundTrip d) (stdKeyword v) = some (stripTrailing v) ∧
+    prop (fileRoundTrip d) "value" = .ok (some (stripTrailing v)) ∧
+    prop (fileRoundTrip d) "meaning" = .ok (some (stripTrailing m)) ∧
+    prop (fileRoundTrip d) "scheme_designator" = .ok (some (stripTrailing s)) ∧
+    prop (fileRoundTrip d) "scheme_version" = .ok (ver.map stripTrailing) ∧
+    (∀ x : String, stripTrailing x = x ↔ ∀ c, x.toList.getLast? = some c → (c == ' ' || c == '\x00') = false) ∧
+    (stripTrailing v = v → stripTrailing s = s → stripTrailing m = m → ver.map stripTrailing = ver → fileRoundTrip d = d) := by
+  obtain ⟨_, _, rfl⟩ := mkConcept_ok v s m ver d hd
+  have hrt : fileRoundTrip (builtDS (stdKeyword v) v s m ver) =
+      builtDS (stdKeyword v) (stripTrailing v) (stripTrailing s) (stripTrailing m) (ver.map stripTrailing) := by
+    cases ver <;> rfl
+  rw [hrt]
+  refine ⟨builtDS_wf _ _ _ _ _ (stdKeyword_cases v), ?_, ?_, ?_, ?_, ?_, stripTrailing_eq_self, ?_⟩
+  all_goals first
+    | (intro h1 h2 h3 h4; rw [h1, h2, h3, h4])
+    | (rcases stdKeyword_cases v with h | h | h <;> rw [h] <;> cases ver <;>
+        simp [builtDS, DS.get, List.lookup, prop, valueLookup, firstPresent, propertyAttr])
+
+/-- a 17-character value that ends in a blank sits in LongCodeValue, comes back from a file with 16 characters (still in
+LongCodeValue) and no longer equals the concept that was written — trailing blanks are not part of a DICOM value, so
+such arguments are outside what the round-trip clause can promise -/
+theorem counterexample_trailing_blank_through_file :
+    let d : DS := [("CodingSchemeDesignator", "99HDV"), ("CodeMeaning", "m"), ("LongCodeValue", "1234567890123456 ")]
+    mkConcept "1234567890123456 " "99HDV" "m" none = .ok d ∧
+    DS.get (fileRoundTrip d) "LongCodeValue" = some "1234567890123456" ∧
+    objEq (fun _ _ => none) (.concept (fileRoundTrip d)) (.concept d) = .ok false := by
+  refine ⟨by rw [mkConcept_spec]; decide, by decide, by decide⟩
+
+/-! ## non-vacuity: the hypotheses are satisfiable by concrete, non-trivial inputs -/
+
 
 example : (Obj.code ⟨some "T-A0100", some "SRT", some "Brain", none⟩).wf := by decide
 example : mkConcept "12738006" "SCT" "Entire brain" none =
@@ -437,5 +758,27 @@ example : stdKeyword "urn:oid:1.2.3" = "URNCodeValue" ∧ stdKeyword "1234567890
 /-- a dataset with two code value attributes is not acceptable, one with exactly one is -/
 example : ¬ acceptable ⟨.dataset, [("CodeValue", "1"), ("LongCodeValue", "2"), ("CodeMeaning", "m"), ("CodingSchemeDesignator", "s")]⟩ ∧
     acceptable ⟨.dataset, [("LongCodeValue", "2"), ("CodeMeaning", "m"), ("CodingSchemeDesignator", "s")]⟩ := by decide
+
+/-- dict / set theorems: a history over both classes, two meanings and a version — the concept replaces the value stored
+under the equal code (one entry, the first key object kept), the versioned code gets its own entry -/
+example :
+    (insertAll (fun s => (s.length : Int)) exRetired ([] : PyDict Nat)
+      [(.code ⟨some "12738006", some "SCT", some "Brain", none⟩, 1),
+       (.concept [("CodingSchemeDesignator", "SCT"), ("CodeMeaning", "Entire brain"), ("CodeValue", "12738006")], 2),
+       (.code ⟨some "12738006", some "SCT", some "Brain", some "2020"⟩, 3)]).map
+      (fun d => d.map (fun e => (e.key.isCode, e.val))) = .ok [(true, 2), (true, 3)] := by decide
+example : PyDict.WF (fun s => (s.length : Int)) ([] : PyDict Nat) ∧ PyDict.distinct exRetired ([] : PyDict Nat) :=
+  ⟨fun _ h => (by cases h), fun _ => Nat.zero_le _⟩
+/-- the hypothesis of `counterexample_alias_hash_and_dict` holds for a concrete hash -/
+example : (fun s : String => (s.length : Int)) "SRTT-A0100" ≠ (fun s : String => (s.length : Int)) "SCT12738006" := by decide
+/-- store theorems: accepted arguments, and a history whose steps write through object 1 only, so object 0 is framed -/
+example : anyBackslash "12738006" "SCT" "Brain" (some "2020") = false ∧ "Brain".length ≤ 64 ∧
+    (∀ op ∈ [HOp.set 1 "CodeMeaning" "x", HOp.fromDataset 1 false, HOp.deepcopy 0, HOp.fromConcept 0], op.target ≠ some 0) := by
+  decide
+example : (runH [⟨.dataset, [("CodeValue", "1"), ("CodeMeaning", "m"), ("CodingSchemeDesignator", "s")]⟩]
+    [HOp.deepcopy 0, HOp.set 1 "CodeMeaning" "x", HOp.del 1 "LongCodeValue"]).2 = [.ok (some 1), .ok none, .error .attribute] := by
+  decide
+/-- file round trip: padding goes, an inner or leading blank stays -/
+example : stripTrailing "ab  \x00 " = "ab" ∧ stripTrailing " a b" = " a b" := by decide
 
 end HdVerif.C17
